@@ -374,6 +374,14 @@ impl<'l> CelCompiler<'l> {
                         ),
                     ));
                 } else if self.bindings.get_type(&i).is_some() {
+                    let type_pattern = match MatchTypePattern::try_from_type_str(&i) {
+                        Some(p) => p,
+                        None => {
+                            return Err(SyntaxError::from_location(start)
+                                .with_message(format!("{} cannot be used as a match pattern", i))
+                                .into())
+                        }
+                    };
                     self.tokenizer.next()?;
                     return Ok((
                         CompiledProg::with_bytecode(
@@ -388,7 +396,7 @@ impl<'l> CelCompiler<'l> {
                         ),
                         AstNode::new(
                             MatchPattern::Type(AstNode::new(
-                                MatchTypePattern::from_type_str(&i),
+                                type_pattern,
                                 SourceRange::new(start, self.tokenizer.location()),
                             )),
                             SourceRange::new(start, self.tokenizer.location()),
